@@ -153,3 +153,77 @@ Lemma inlining_non_vacuous : exists (tags : nat -> option (tagdetails nat nat)) 
 Proof.
   exists wi_tags, [[CTag 0 tag_plain]]. eexists. split; [vm_compute; reflexivity|reflexivity].
 Qed.
+
+(* ------------------------------------------------------------------ *)
+(* the hypotheses of the inlining theorem are satisfiable: a concrete  *)
+(* inversion (De Morgan on the DNF) over atoms with a polarity         *)
+(* ------------------------------------------------------------------ *)
+Definition patom : Type := (bool * nat)%type.               (* (negated?, atom number) *)
+Definition neg_accept (a : accept) : accept :=
+  mkAccept (negb (acc_m a)) (negb (acc_f a)) (negb (acc_um a)) (negb (acc_uf a)).
+Definition neg_cond (c : cond patom nat) : cond patom nat :=
+  match c with
+  | CAtom (b, n) => CAtom (negb b, n)
+  | CTag t a => CTag t (neg_accept a)
+  end.
+Definition demorgan (d : dnf patom nat) : dnf patom nat :=
+  fold_right (fun c acc => flat_map (fun x => map (fun y => neg_cond x :: y) acc) c) [[]] d.
+
+Section InvertWitness.
+  Variable base : nat -> bool.
+  Variable sid : N.
+  Definition pe (x : patom) : bool := xorb (fst x) (base (snd x)).
+  Definition wtags (t : nat) : option (tagdetails patom nat) :=
+    match t with
+    | 0 => Some (mkTag patom nat (fun _ => false) (fun _ => true) true [[CAtom (false, 7)]])
+    | _ => None
+    end.
+  (* tags that do not exist make every tag condition false, also the negated one: the witness
+     therefore only speaks about conditions on existing tags *)
+  Definition cond_wf (c : cond patom nat) : Prop :=
+    match c with CTag t _ => wtags t <> None | _ => True end.
+
+  Lemma neg_cond_ok : forall c, cond_wf c -> eval_cond wtags pe sid (neg_cond c) = negb (eval_cond wtags pe sid c).
+  Proof.
+    intros [[b n]|t a] H; simpl.
+    - unfold pe. simpl. destruct b, (base n); auto.
+    - simpl in H. destruct (wtags t) as [td|]; [|congruence].
+      unfold accepts, neg_accept. simpl.
+      destruct (td_uncertain td sid), (td_matches td sid); auto.
+  Qed.
+
+  Lemma demorgan_ok : forall d, Forall (Forall cond_wf) d ->
+    eval_dnf wtags pe sid (demorgan d) = negb (eval_dnf wtags pe sid d).
+  Proof.
+    induction d as [|c d IH]; intros H; [reflexivity|].
+    inversion H as [|? ? Hc Hd]; subst. specialize (IH Hd).
+    change (demorgan (c :: d)) with (flat_map (fun x => map (fun y => neg_cond x :: y) (demorgan d)) c).
+    rewrite eval_dnf_cons.
+    assert (G : forall c0, Forall cond_wf c0 ->
+              eval_dnf wtags pe sid (flat_map (fun x => map (fun y => neg_cond x :: y) (demorgan d)) c0) =
+              negb (eval_conj wtags pe sid c0) && eval_dnf wtags pe sid (demorgan d)).
+    { induction c0 as [|x c0 IHc]; intros Hw; [reflexivity|].
+      inversion Hw; subst. simpl flat_map. rewrite eval_dnf_app, IHc; auto.
+      rewrite eval_conj_cons.
+      assert (E : eval_dnf wtags pe sid (map (fun y => neg_cond x :: y) (demorgan d)) =
+                  eval_cond wtags pe sid (neg_cond x) && eval_dnf wtags pe sid (demorgan d)).
+      { generalize (demorgan d). intros l. induction l as [|y l IHl].
+        - simpl. rewrite andb_false_r. reflexivity.
+        - cbn [map]. rewrite !eval_dnf_cons, IHl, eval_conj_cons.
+          destruct (eval_cond wtags pe sid (neg_cond x)), (eval_conj wtags pe sid y), (eval_dnf wtags pe sid l); auto. }
+      rewrite E, neg_cond_ok; auto.
+      destruct (eval_cond wtags pe sid x), (eval_conj wtags pe sid c0), (eval_dnf wtags pe sid (demorgan d)); auto. }
+    rewrite G, IH; auto.
+    destruct (eval_conj wtags pe sid c), (eval_dnf wtags pe sid d); auto.
+  Qed.
+End InvertWitness.
+
+(* an instance of the theorem's conclusion obtained through the theorem's statement shape: inlining
+   `tag:0` (undecided everywhere, defined as atom 7) evaluates to atom 7 *)
+Example inlining_instance : forall base sid,
+  exists d', inline_dnf wtags demorgan 1 [[CTag 0 tag_plain]] = Some d' /\
+             eval_dnf wtags (pe base) sid d' = base 7.
+Proof.
+  intros. eexists. split; [vm_compute; reflexivity|].
+  unfold eval_dnf, eval_conj, eval_cond, pe. simpl. destruct (base 7); reflexivity.
+Qed.
